@@ -403,9 +403,27 @@ pub fn run_history(r: &mut Rng, cfg: &Cfg, log: &mut Vec<String>) -> Result<Stat
             }
             38 => {
                 name = "bit_edit";
-                let mut u = p[j].clone().unsigned_abs();
-                let mut mu = q[j].magnitude().clone();
-                let b = r.usize(mu.bits() as usize + 70);
+                // either a fresh clone of slot j, or slot i itself moved out (keeps the capacity its history left)
+                let own = r.bool();
+                let (mut u, mut mu) = if own {
+                    (std::mem::take(&mut p[i]).unsigned_abs(), q[i].magnitude().clone())
+                } else {
+                    (p[j].clone().unsigned_abs(), q[j].magnitude().clone())
+                };
+                // bit positions inside the value, in the next word, and in the words at / just past the end of the
+                // allocated buffer (the reservation made before a bit is set far above the top)
+                let wb = Word::BITS as usize;
+                #[cfg(dashu_verif)]
+                let cap = u.verif_layout().0.unsigned_abs();
+                #[cfg(not(dashu_verif))]
+                let cap = u.as_words().len() + 2;
+                let inline = cap <= 2;
+                let b = match r.below(6) {
+                    0 | 1 if !inline => cap * wb + r.usize(wb),
+                    2 if !inline => (cap + 1 + r.usize(3)) * wb + r.usize(wb),
+                    3 => (cap.saturating_sub(1)) * wb + r.usize(wb),
+                    _ => r.usize(mu.bits() as usize + 70),
+                };
                 if r.bool() {
                     u.set_bit(b);
                     mu.set_bit(b as u64, true);
@@ -416,7 +434,7 @@ pub fn run_history(r: &mut Rng, cfg: &Cfg, log: &mut Vec<String>) -> Result<Stat
                 let _ = u.bit_len();
                 p[i] = IBig::from(u);
                 q[i] = BigInt::from(mu);
-                log.push(format!("{}: p[{}] = set/clear bit {} of |p[{}]|", step, i, b, j));
+                log.push(format!("{}: p[{}] = set/clear bit {} of |p[{}]|", step, i, b, if own { i } else { j }));
             }
             _ => {
                 name = "heavy";
